@@ -4,6 +4,8 @@
 //!
 //! Learn more about Humphrey WebSocket [here](https://humphrey.whenderson.dev/websocket/index.html).
 
+#![allow(unexpected_cfgs)]
+
 #![warn(missing_docs)]
 
 const MAGIC_STRING: &str = "258EAFA5-E914-47DA-95CA-C5AB0DC85B11";
@@ -29,3 +31,7 @@ mod util;
 
 #[cfg(test)]
 mod tests;
+
+/// Verification hook: access to the crate-private frame codec (off unless `--cfg humphrey_verif`).
+#[cfg(humphrey_verif)]
+pub mod verif;
